@@ -7,7 +7,7 @@ from z3 import And, Or, Not, Implies, If, IntVal, RealVal, BoolVal
 from . import sorts as so
 from .sorts import fresh, I, R, B
 from .values import (SList, SDict, SSet, SObj, TupleSpec, Closure, Callback, FuncRef, PyConst, NONE, NoneV,
-                     Unsupported, coerce, SDictOfLists, SListRef)
+                     Unsupported, coerce, SDictOfLists, SListRef, SHistory)
 
 
 class PathEnd(Exception):
@@ -645,6 +645,8 @@ class Run:
         if isinstance(base, _EmptyList):
             self.oblige('safety', 'index-in-range', lineno, BoolVal(False))
             raise PathEnd()
+        if isinstance(base, SHistory):
+            return base.at(coerce(k, so.U()))
         if isinstance(base, SDictOfLists):
             kk = coerce(k, base.ksort)
             if base.default_empty:
@@ -968,6 +970,11 @@ class Run:
                 self.oblige('safety', 'index-in-range', lineno, And(0 <= k, k < base.n))
             base.a = z3.Store(base.a, k, self.pack(val, base.esort))
             return
+        if isinstance(base, SHistory):
+            if isinstance(val, tuple) and len(val) == 2 and all(isinstance(x, _EmptyList) for x in val):
+                base.reset(coerce(k, so.U()))
+                return
+            raise Unsupported('store of %r into a node history at line %d' % (val, lineno))
         if isinstance(base, SDictOfLists):
             kk = coerce(k, base.ksort)
             if isinstance(val, _EmptyList):
